@@ -333,7 +333,15 @@ DETOUR = {
     '    if not inspect.isclass(v2) and (not inspect.isfunction(v2)):\n'
     "        raise TypeError(f'Detour destination {v2!r} is not a class or a function.')\n"
     'try:\n    yield _global_detour_context.enter_scope(v0)\n'
-    'finally:\n    _global_detour_context.leave_scope()': 'detour',
+    'finally:\n    _global_detour_context.leave_scope()': ('detour', False),   # finding F350
+    'for v2, v3 in v0:\n'
+    '    if not inspect.isclass(v2):\n'
+    "        raise TypeError(f'Detour source {v2!r} is not a class.')\n"
+    '    if not inspect.isclass(v3) and (not inspect.isfunction(v3)):\n'
+    "        raise TypeError(f'Detour destination {v3!r} is not a class or a function.')\n"
+    'v1 = _global_detour_context.enter_scope(v0)\n'
+    'try:\n    yield v1\n'
+    'finally:\n    _global_detour_context.leave_scope()': ('detour', True),
 }
 
 DETOUR_ENTER = {
@@ -351,7 +359,23 @@ DETOUR_ENTER = {
     "        setattr(v3, '__new__', _maybe_detoured_new)\n"
     '    v1[v3] = v4\n'
     'self._detour_stack.append(v1)\n'
-    'return v1': 'ok',
+    'return v1': 'recordsBeforePatch',      # a failed setattr leaves a stale _original_new entry (F350)
+    'v1 = dict(self.current_mappings)\n'
+    'v2 = []\n'
+    'for v3, v4 in v0:\n'
+    '    if v3 not in v1:\n'
+    '        if v4 in v1:\n'
+    '            v2.append((v3, v1[v4]))\n'
+    '        else:\n'
+    '            v2.append((v3, v4))\n'
+    'for v3, v4 in v2:\n'
+    '    if v3 not in self._original_new:\n'
+    '        v5 = v3.__new__\n'
+    "        setattr(v3, '__new__', _maybe_detoured_new)\n"
+    '        self._original_new[v3] = v5\n'
+    '    v1[v3] = v4\n'
+    'self._detour_stack.append(v1)\n'
+    'return v1': 'recordsAfterPatch',
 }
 DETOUR_LEAVE = {'assert self._detour_stack\nself._detour_stack.pop(-1)': 'ok'}
 DETOUR_STACK = {
@@ -658,13 +682,14 @@ def extract_stacks(mgrs, facts):
   # detour
   _, tree = common.parse_source(F_DETOUR)
   fn = common.find_func(tree, 'detour')
-  rule = expect_shape(F_DETOUR, fn, DETOUR, 'detour')
+  rule, facts['detourEntryBeforeTry'] = expect_shape(F_DETOUR, fn, DETOUR, 'detour')
   cls = common.find_class(tree, '_DetourContext')
   init = common.find_func(cls, '__init__')
   if not any(isinstance(s, ast.Assign) and ast.unparse(s.targets[0]) == 'self._tls' and is_threading_local(s.value)
              for s in init.body):
     raise TranslatorError(F_DETOUR + ': `self._tls = threading.local()` not found in _DetourContext.__init__')
-  expect_shape(F_DETOUR, common.find_func(cls, 'enter_scope'), DETOUR_ENTER, '_DetourContext.enter_scope')
+  facts['detourRecordsAfterPatch'] = expect_shape(
+      F_DETOUR, common.find_func(cls, 'enter_scope'), DETOUR_ENTER, '_DetourContext.enter_scope') == 'recordsAfterPatch'
   # The `__new__` patch is shared by all threads while the mapping is per thread: nothing but
   # enter_scope may write a class's `__new__` or drop an `_original_new` entry (another thread may
   # still be inside a detour of that class).
@@ -896,6 +921,11 @@ def run():
   L.append('/-- `_maybe_detoured_new`: the temporary `cls -> cls` entry written before calling a destination')
   L.append('function is replaced by the destination in a `finally`. -/')
   L.append('def detourCallRestoresInFinally : Bool := %s' % common.lean_bool(facts['detourCallRestoresInFinally']))
+  L.append('')
+  L.append('/-- `detour()` enters its scope before the `try` whose `finally` leaves it (a failing entry must not')
+  L.append('pop the enclosing scope); `enter_scope` records a class as patched only after the patch succeeded. -/')
+  L.append('def detourEntryBeforeTry : Bool := %s' % common.lean_bool(facts['detourEntryBeforeTry']))
+  L.append('def detourRecordsAfterPatch : Bool := %s' % common.lean_bool(facts['detourRecordsAfterPatch']))
   L.append('')
   L.append('end Pg.C17')
   L.append('')
